@@ -461,6 +461,15 @@ func (st *tunnelServerStream) SendMsg(m interface{}) error {
 	st.writeMu.Lock()
 	defer st.writeMu.Unlock()
 
+	if st.closed {
+		// stream already finished (e.g. cancelled by the client); the headers
+		// and close frames are already on their way, so no data may follow
+		if err := st.ctx.Err(); err != nil {
+			return status.FromContextError(err).Err()
+		}
+		return status.Error(codes.Internal, "stream is already closed")
+	}
+
 	if !st.sentHeaders {
 		if err := st.sendHeadersLocked(); err != nil {
 			return err
